@@ -127,3 +127,34 @@ pub fn run_policy(text: &str, io_map: Option<&HashMap<u32, Target>>, records: Ve
     }
     Ok(PolicyRun { outcomes, scan, interp, forms, frames, max_tag })
 }
+
+#[cfg(test)]
+mod tests {
+    use super::*;
+
+    /// The repository's own snapshots (taken from lipe_find3 output) must read and run in the model.
+    #[test]
+    fn snapshots_run_in_the_model() {
+        let dir = "/repo/src/snapshots";
+        let mut n = 0;
+        for e in std::fs::read_dir(dir).unwrap() {
+            let p = e.unwrap().path();
+            let text = std::fs::read_to_string(&p).unwrap();
+            let body = text.splitn(3, "---").nth(2).unwrap();
+            let forms = read_program(body).unwrap_or_else(|e| panic!("{:?}: {}", p, e));
+            let mut it = Interp::new(vec![FileRecord::base(0), FileRecord::base(1)]);
+            it.run_program(&forms).unwrap_or_else(|e| panic!("{:?}: {}", p, e));
+            assert_eq!(it.w.runs.len(), 2, "{:?}", p);
+            assert_eq!(it.w.scan.as_ref().unwrap().device, "/");
+            n += 1;
+        }
+        assert!(n >= 15);
+    }
+
+    #[test]
+    fn frames_decode() {
+        assert_eq!(decode_frames("ab\u{1e}\u{2}c\u{1e}\u{3}").unwrap(), vec![("ab".to_string(), 2), ("c".to_string(), 3)]);
+        assert!(decode_frames("ab\u{1e}\u{2}c").is_err());
+        assert!(decode_frames("ab\u{1e}").is_err());
+    }
+}
